@@ -97,7 +97,7 @@ type Sim struct {
 	parked  []*G
 	pending []*Pending
 	nextID  int
-	libs    int
+	libSites map[string]int
 	ctlKids int
 	seq     uint64
 	kick    chan struct{}
@@ -219,13 +219,32 @@ func (s *Sim) self() *G {
 	s.mu.Lock()
 	g := s.gs[id]
 	if g == nil {
+		// a goroutine that was not started by an instrumented go statement (library
+		// goroutine calling back into dtail code): its key is NOT its arrival
+		// order, which the Go scheduler decides, but is derived from the place
+		// where it first becomes schedulable (see libKey)
 		s.nextID++
-		s.libs++
-		g = &G{ID: s.nextID, Key: fmt.Sprintf("L%d", s.libs), goid: id, node: s.DefaultNode, wake: make(chan struct{}, 1)}
+		g = &G{ID: s.nextID, goid: id, node: s.DefaultNode, wake: make(chan struct{}, 1)}
 		s.gs[id] = g
 	}
 	s.mu.Unlock()
 	return g
+}
+
+// libKey names a library goroutine after the site where it first parks (or
+// spawns) plus a per-site counter. Goroutines reach a given site one at a time
+// under the controller, so the name does not depend on the host's scheduler.
+func (s *Sim) libKey(g *G, site string) {
+	if g.Key != "" {
+		return
+	}
+	s.mu.Lock()
+	if s.libSites == nil {
+		s.libSites = map[string]int{}
+	}
+	s.libSites[site]++
+	g.Key = fmt.Sprintf("L:%s#%d", site, s.libSites[site])
+	s.mu.Unlock()
 }
 
 // GoToken carries the spawning goroutine's node to its child.
@@ -246,6 +265,7 @@ func BeforeGo() GoToken {
 		s.ctlKids++
 		return GoToken{sim: s, node: s.DefaultNode, key: fmt.Sprintf("0.%d", s.ctlKids)}
 	}
+	s.libKey(g, "go")
 	g.kids++
 	return GoToken{sim: s, node: g.node, key: fmt.Sprintf("%s.%d", g.Key, g.kids)}
 }
@@ -372,6 +392,7 @@ func (s *Sim) park(g *G, site string) {
 		g.exiting = true
 		runtime.Goexit()
 	}
+	s.libKey(g, site)
 	g.site = site
 	s.mu.Lock()
 	s.seq++
